@@ -249,7 +249,7 @@ func runShard(o hx.Opts, scens []Scenario, hangMs int) []result {
 }
 
 var svcCode = map[string]int{}
-var streamCode = map[string]int{"dialogue": 1, "truncated": 2, "mutated": 3, "raw": 4, "ssh": 6}
+var streamCode = map[string]int{"dialogue": 1, "truncated": 2, "mutated": 3, "raw": 4, "ssh": 6, "tftp-load": 8}
 var sshTypeCode = map[string]int{"env": 1, "exec": 2, "shell": 3, "pty-req": 4, "subsystem": 5, "tcpip-forward": 6}
 var sshChanCode = map[string]int{"": 0, "session": 0, "direct-tcpip": 1, "forwarded-tcpip": 2}
 
@@ -345,6 +345,13 @@ func main() {
 				sh = sh[70:]
 			}
 			shards = append(shards, sh)
+		}
+		nload := 3
+		if o.Tier != "quick" {
+			nload = 12
+		}
+		for _, sc := range tftpLoadScenarios(r, nload) {
+			shards = append(shards, []Scenario{sc})
 		}
 		var sh []Scenario
 		for i := 0; i < nssh; i++ {
